@@ -21,4 +21,4 @@ require (
 	golang.org/x/sys v0.35.0 // indirect
 )
 
-replace github.com/sarchlab/mgpusim/v4 => /repo
+replace github.com/sarchlab/mgpusim/v4 => /work/C03V/repo
